@@ -45,9 +45,10 @@ func c18shapes() [][]string {
 }
 
 type c18case struct {
-	Chains [][]string `json:"chains"` // per node: intermediate cursors
-	Extra  []string   `json:"extra,omitempty"`
-	Start  string     `json:"start,omitempty"`
+	Chains    [][]string `json:"chains"` // per node: intermediate cursors
+	Extra     []string   `json:"extra,omitempty"`
+	Start     string     `json:"start,omitempty"`
+	Pipelined bool       `json:"pipelined,omitempty"` // two iterations in flight at once
 }
 
 func c18run(cs c18case) (sig, detail string) {
@@ -79,6 +80,38 @@ func c18run(cs c18case) (sig, detail string) {
 		s := vfStartStack(cl, vfSvcConfig(0, nil, 0))
 		c := s.NewClient("c0")
 		mark := len(cl.Log)
+		if cs.Pipelined {
+			// two clients' iterations overlap: the replies of both SCANs are in flight together,
+			// on one connection (pipelined) and on two connections
+			first := cs.Chains[0]
+			if len(first) == 0 {
+				return
+			}
+			c2 := s.NewClient("c1")
+			raw := append(resp.Encode(resp.Cmd("SCAN", "0")), resp.Encode(resp.Cmd("SCAN", first[0]))...)
+			c.Send(raw)
+			c2.Send(raw)
+			sched.WaitQuiescent()
+			for _, cc := range []*vfClient{c, c2} {
+				rs, _ := cc.Pending()
+				if len(rs) != 2 {
+					sig, detail = "pipelined-scan-reply-count", fmt.Sprint(rs)
+					return
+				}
+				want0 := first[0]
+				want1 := "281474976710656" // the node is finished: (node 1, cursor 0), whether or not a node 1 exists
+				if len(first) > 1 {
+					want1 = first[1]
+				}
+				for i, w := range []string{want0, want1} {
+					if rs[i].Kind != '*' || len(rs[i].Arr) != 2 || string(rs[i].Arr[0].Str) != w {
+						sig, detail = "overlapping-scans-get-wrong-cursor", fmt.Sprintf("reply %d carries cursor %s, expected %s", i, rs[i], w)
+						return
+					}
+				}
+			}
+			return
+		}
 		if cs.Start != "" {
 			got, err := c.Do("SCAN", cs.Start)
 			if err != nil {
@@ -226,6 +259,12 @@ func c18scan(env sched.Env) *sched.Report {
 				}
 				try(c18case{Chains: [][]string{a, b, c}})
 			}
+		}
+	}
+	for _, a := range shapes {
+		if len(a) > 0 {
+			try(c18case{Chains: [][]string{a}, Pipelined: true})
+			try(c18case{Chains: [][]string{a, {"1"}}, Pipelined: true})
 		}
 	}
 	extras := [][]string{{"MATCH", "key*"}, {"COUNT", "7"}, {"MATCH", "k\r\n*", "COUNT", "1000000"}, {"TYPE", "string"}, {"match", "*", "count", "1", "type", "hash"}}
